@@ -66,7 +66,18 @@ fn open_view(base: &std::path::Path) -> Result<Facts, String> {
 fn gen_dependency(rng: &mut Rng, uid: &mut i64) -> (&'static str, Vec<String>) {
     *uid += 10;
     let u = *uid;
-    match rng.below(9) {
+    match rng.below(10) {
+        9 => (
+            // relationships created earlier in the transaction between committed nodes must be seen
+            // by the DETACH DELETEs that follow (this kind holds on the current tree)
+            "create-rels->detach-delete",
+            vec![
+                "MATCH (x:Q {uid: 3}), (a:Q {uid: 2}) CREATE (x)-[:R]->(a)".into(),
+                "MATCH (a:Q {uid: 2}), (b:Q {uid: 1}) CREATE (a)-[:R]->(b)".into(),
+                "MATCH (b:Q {uid: 1}) DETACH DELETE b".into(),
+                "MATCH (a:Q {uid: 2}) DETACH DELETE a".into(),
+            ],
+        ),
         0 => ("create->match-set", vec![format!("CREATE (:P {{uid: {u}}})"), format!("MATCH (n:P {{uid: {u}}}) SET n.k = 5")]),
         1 => ("create->merge", vec![format!("CREATE (:P {{uid: {u}}})"), format!("MERGE (:P {{uid: {u}}})")]),
         2 => ("create->delete", vec![format!("CREATE (:P {{uid: {u}}})"), format!("MATCH (n:P {{uid: {u}}}) DELETE n")]),
@@ -431,7 +442,7 @@ fn c14_case(seed: u64, k: usize, out: &mut CaseOut) -> Vec<Violation> {
     let steps = 6 + rng.below(14);
     for _ in 0..steps {
         let live: Vec<i64> = nodes.iter().copied().collect();
-        let choice = rng.weighted(&[25, 20, 14, 10, 10, 8, 5, 4, 8, 8]);
+        let choice = rng.weighted(&[25, 20, 14, 10, 10, 8, 5, 4, 8, 8, 12]);
         let (stmt, expect_refusal, kind): (String, Option<bool>, &str) = match choice {
             0 => {
                 uid += 1;
@@ -500,6 +511,105 @@ fn c14_case(seed: u64, k: usize, out: &mut CaseOut) -> Vec<Violation> {
                     return viols;
                 }
                 ("/* transaction */".into(), None, "duplicate-create-then-detach-delete")
+            }
+            10 if live.len() >= 3 => {
+                // ONE explicit transaction of several statements over committed nodes: relationships
+                // are created, endpoints DETACH DELETEd, plain DELETEs attempted. A plain DELETE must
+                // be refused iff the node has a relationship, committed or created earlier in this
+                // transaction and not deleted since; a refused statement leaves nothing (savepoint).
+                let n_stmts = 3 + rng.below(4);
+                let mut script: Vec<String> = Vec::new();
+                let mut t_nodes = nodes.clone();
+                let mut t_rels = rels.clone();
+                let mut txn = db.begin_write();
+                let snap = db.snapshot();
+                out.count("multi_statement_transactions", 1);
+                out.cell("multi-statement-transaction".to_string());
+                let mut failed_viol: Option<Violation> = None;
+                for _ in 0..n_stmts {
+                    let tl: Vec<i64> = t_nodes.iter().copied().collect();
+                    if tl.len() < 2 {
+                        break;
+                    }
+                    let (a, b) = (*rng.pick(&tl), *rng.pick(&tl));
+                    let (stmt, refuse): (String, Option<bool>) = match rng.below(4) {
+                        0 | 1 => {
+                            if t_rels.contains(&(a, b)) {
+                                continue;
+                            }
+                            t_rels.push((a, b));
+                            (format!("MATCH (a:N {{uid: {a}}}), (b:N {{uid: {b}}}) CREATE (a)-[:R]->(b)"), None)
+                        }
+                        2 => {
+                            t_nodes.remove(&a);
+                            t_rels.retain(|(x, y)| *x != a && *y != a);
+                            (format!("MATCH (n:N {{uid: {a}}}) DETACH DELETE n"), Some(false))
+                        }
+                        _ => {
+                            let connected = t_rels.iter().any(|(x, y)| *x == a || *y == a);
+                            if !connected {
+                                t_nodes.remove(&a);
+                            }
+                            (format!("MATCH (n:N {{uid: {a}}}) DELETE n"), Some(connected))
+                        }
+                    };
+                    script.push(stmt.clone());
+                    out.evaluations += 1;
+                    out.count("statements_in_multi_statement_transactions", 1);
+                    if stmt.contains("DELETE") {
+                        out.count("delete_statements", 1);
+                    }
+                    let sp = txn.savepoint();
+                    let r = ndb_core::query::prepare(&stmt).and_then(|p| p.execute_mixed(&snap, &mut txn, &params));
+                    match (r, refuse) {
+                        (Ok(_), Some(true)) => {
+                            failed_viol = Some(Violation {
+                                signature: "C14|delete-of-connected-node-accepted|multi-statement-transaction".into(),
+                                summary: format!("inside one transaction [{}] the last statement succeeded although the node has a relationship (committed, or created earlier in the transaction)", script.join("; ")),
+                                detail: json!({"history": history, "transaction": script}),
+                                replay: json!({"engine":"cyphermon","property":"C14","seed":seed,"case":k}),
+                            });
+                            break;
+                        }
+                        (Err(_), Some(true)) => {
+                            txn.rollback_to(sp);
+                            out.count("refusals_inside_multi_statement_transactions", 1);
+                        }
+                        (Err(e), _) => {
+                            out.inconclusive(&format!("transaction-statement-failed:{}", crate::storemon::normalise_msg(&e.to_string()).chars().take(50).collect::<String>()));
+                            return viols;
+                        }
+                        _ => {}
+                    }
+                }
+                history.push(format!("BEGIN; {}; COMMIT", script.join("; ")));
+                if let Some(v) = failed_viol {
+                    let _ = txn.commit();
+                    viols.push(v);
+                    return viols_with_scan(&db, viols, &history, seed, k, "multi-statement-transaction");
+                }
+                if txn.commit().is_err() {
+                    out.inconclusive("multi-statement-transaction-commit-failed");
+                    return viols;
+                }
+                nodes = t_nodes;
+                rels = t_rels;
+                // what the committed transaction left: every relationship the reference has must be
+                // found from both ends (the invariant scan below checks out/in agreement as well)
+                let want: std::collections::BTreeSet<(i64, i64)> = rels.iter().copied().collect();
+                let got: std::collections::BTreeSet<(i64, i64)> = run_read(&db, "MATCH (b)<-[r]-(a) RETURN a.uid AS a, b.uid AS b", &params, false)
+                    .map(|rows| rows.iter().filter_map(|r| match (&r[0].1, &r[1].1) { (Value::Int(a), Value::Int(b)) => Some((*a, *b)), _ => None }).collect())
+                    .unwrap_or_default();
+                if want != got {
+                    viols.push(Violation {
+                        signature: "C14|relationships-differ-after-transaction|multi-statement-transaction".into(),
+                        summary: format!("after the transaction [{}] the relationships found from their target end are {:?}, the statements leave {:?}", script.join("; "), got, want),
+                        detail: json!({"history": history, "transaction": script}),
+                        replay: json!({"engine":"cyphermon","property":"C14","seed":seed,"case":k}),
+                    });
+                    return viols;
+                }
+                ("/* transaction */".into(), None, "multi-statement-transaction")
             }
             8 if live.len() >= 2 => {
                 // two statements in ONE explicit transaction: create a relationship, then delete an
